@@ -38,9 +38,12 @@ Fixpoint wire_run_outs (po : option pkt) (fx : list wire_run_fx) : option (list 
 (* the next request at its program point:
      `packet = yield self.store.get()` (point 1)   nothing propagating; the get is issued to the store; a packet the
                                                    process held and did not hand to out.put is LOST (ghost output)
-     `yield env.timeout(d)` (point 2)               the held packet propagates until now + d
+     `yield env.timeout(d)` (point 2)               the held packet propagates until now + d; the automaton keeps that
+                                                   deadline in its own form now + dcanon (dcanon = delay - (now -
+                                                   current_time)): d must equal (==) dcanon
    exit, raise (the failed `assert self.out`), a request at the wrong point: no counterpart in the automaton *)
-Definition wire_run_step (w : wire) (po : option pkt) (g : list wire_run_fx * wire_run_next) : option (wire * list wout) :=
+Definition wire_run_step (w : wire) (po : option pkt) (dcanon : Q) (g : list wire_run_fx * wire_run_next)
+  : option (wire * list wout) :=
   match g with
   | (fx, n) =>
       match wire_run_outs po fx with
@@ -52,7 +55,8 @@ Definition wire_run_step (w : wire) (po : option pkt) (g : list wire_run_fx * wi
               | Some w2 => Some (w2, match po, outs with Some p, [] => [OLost p] | _, _ => outs end)
               | None => None
               end
-          | NxYield (RqTimeout d) PP2, Some p => Some (set_hold w (Some (p, wnow w + d)), outs)
+          | NxYield (RqTimeout d) PP2, Some p =>
+              if Qeq_bool d dcanon then Some (set_hold w (Some (p, wnow w + dcanon)), outs) else None
           | _, _ => None
           end
       end
@@ -84,7 +88,7 @@ Ltac qb :=
 Lemma bridge_wire_run_init : forall (loss : option Q) (w : wire) (ct : Q) (dbg out_set : bool) (u dd : Q),
   hold w = None ->
   wire_act loss w WInit =
-    (if started w then None else wire_run_step (set_started w) None (wire_gen_init loss w ct dbg out_set u dd)).
+    (if started w then None else wire_run_step (set_started w) None 0 (wire_gen_init loss w ct dbg out_set u dd)).
 Proof.
   intros loss w ct dbg out_set u dd Hh. destruct w as [nw q st h nr]; cbn in Hh; subst h.
   unfold wire_gen_init, gen_Wire_run_from_0, wire_run_step, set_started, set_hold; cbn.
@@ -93,11 +97,16 @@ Qed.
 
 (* ---- WGet u d = from_1, with exactly the draws the code consumes -------------------------------------------- *)
 Ltac cbnq := cbn -[Qplus Qminus Qmult Qdiv Qopp Qinv Qle_bool Qeq_bool Qlt_le_dec].
+Ltac delay_ok :=
+  repeat match goal with
+         | |- context [Qeq_bool ?a ?b] =>
+             replace (Qeq_bool a b) with true by (symmetry; apply Qeq_bool_iff; ring)
+         end.
 Ltac cases_q :=
   repeat (cbnq; match goal with
                 | |- context [Qlt_le_dec ?a ?b] => destruct (Qlt_le_dec a b)
                 | |- context [Qle_bool ?a ?b] => let E := fresh "E" in destruct (Qle_bool a b) eqn:E
-                | |- context [Qeq_bool ?a ?b] => let E := fresh "E" in destruct (Qeq_bool a b) eqn:E
+                | |- context [Qeq_bool ?a 0] => let E := fresh "E" in destruct (Qeq_bool a 0) eqn:E
                 | |- context [sq_get fifo_pop ?q] => destruct (sq_get fifo_pop q)
                 end).
 
@@ -105,12 +114,12 @@ Lemma bridge_wire_run_get : forall (loss : option Q) (w : wire) (a0 : Q) (p : pk
   hold w = None -> sq_take (wq w) = Some ((a0, p), q) -> started w = true ->
   let g := wire_gen_get loss w a0 dbg u dd in
   wire_act loss w (WGet (consumed is_uniform (fst g) u) (consumed is_delay (fst g) dd)) =
-    wire_run_step (with_q w q) (Some p) g.
+    wire_run_step (with_q w q) (Some p) (dd - (wnow w - a0)) g.
 Proof.
   intros loss w a0 p q dbg u dd Hh Ht Hs. destruct w as [nw q0 st h nr]; cbn in Hh, Ht, Hs; subst h st.
   unfold wire_gen_get, gen_Wire_run_from_1. cbn [wire_act hold wq started wnow negb]. rewrite Ht. cbn [negb].
   unfold lost_dec, loss_on, consumed, wire_run_step, with_q, set_hold, server_get.
-  destruct loss as [r|]; cases_q; qb; try (exfalso; lra); reflexivity.
+  destruct loss as [r|]; cases_q; qb; try (exfalso; lra); delay_ok; reflexivity.
 Qed.
 
 (* a WGet the automaton admits carries exactly the draws the code consumes (taking the carried values as the draws) *)
@@ -136,7 +145,7 @@ Qed.
 Lemma bridge_wire_run_timer : forall (loss : option Q) (w : wire) (ct : Q) (dbg : bool) (u dd : Q),
   wire_act loss w WTimer =
     match hold w with
-    | Some (p, dl) => if Qeq_bool dl (wnow w) then wire_run_step w (Some p) (wire_gen_timer loss w ct dbg u dd) else None
+    | Some (p, dl) => if Qeq_bool dl (wnow w) then wire_run_step w (Some p) 0 (wire_gen_timer loss w ct dbg u dd) else None
     | None => None
     end.
 Proof.
@@ -148,28 +157,32 @@ Qed.
 
 (* ---- the effects and the next request, explicitly ---------------------------------------------------------------
    program order: the loss draw (iff loss_rate is truthy) BEFORE the delay draw (iff the packet is kept: draw >= rate)
-   BEFORE out.put (iff the packet already waited its delay in the store); otherwise a timeout of exactly
-   delay - (now - entry instant) *)
+   BEFORE out.put (iff the packet already waited its delay in the store); otherwise a timeout of
+   delay - (now - current_time) *)
+Definition wire_waits (w : wire) (a0 dd : Q) (n : wire_run_next) : Prop :=
+  exists d, n = NxYield (RqTimeout d) PP2 /\ d == dd - (wnow w - a0).
+
 Lemma wire_run_get_explicit : forall (loss : option Q) (w : wire) (a0 : Q) (dbg : bool) (u dd : Q),
-  wire_gen_get loss w a0 dbg u dd =
-    match loss_on loss with
-    | Some r =>
-        if Qle_bool r u
-        then (if Qlt_le_dec (wnow w - a0) dd
-              then ([FxUniform; FxDelayDist], NxYield (RqTimeout (dd - (wnow w - a0))) PP2)
-              else ([FxUniform; FxDelayDist; FxOutPut], NxYield RqStoreGet PP1))
-        else ([FxUniform], NxYield RqStoreGet PP1)
-    | None =>
-        if Qlt_le_dec (wnow w - a0) dd
-        then ([FxDelayDist], NxYield (RqTimeout (dd - (wnow w - a0))) PP2)
-        else ([FxDelayDist; FxOutPut], NxYield RqStoreGet PP1)
-    end.
+  let g := wire_gen_get loss w a0 dbg u dd in
+  match loss_on loss with
+  | Some r =>
+      if Qle_bool r u
+      then (if Qlt_le_dec (wnow w - a0) dd
+            then fst g = [FxUniform; FxDelayDist] /\ wire_waits w a0 dd (snd g)
+            else g = ([FxUniform; FxDelayDist; FxOutPut], NxYield RqStoreGet PP1))
+      else g = ([FxUniform], NxYield RqStoreGet PP1)
+  | None =>
+      if Qlt_le_dec (wnow w - a0) dd
+      then fst g = [FxDelayDist] /\ wire_waits w a0 dd (snd g)
+      else g = ([FxDelayDist; FxOutPut], NxYield RqStoreGet PP1)
+  end.
 Proof.
-  intros loss w a0 dbg u dd. unfold wire_gen_get, gen_Wire_run_from_1, loss_on.
+  intros loss w a0 dbg u dd. unfold wire_gen_get, gen_Wire_run_from_1, loss_on, wire_waits.
   destruct loss as [r|]; [destruct (Qeq_bool r 0); cbn [negb]; [|destruct (Qle_bool r u)]|];
     try reflexivity;
     destruct (Qlt_le_dec (wnow w - a0) dd) as [Hd|Hd];
-    destruct (Qle_bool dd (wnow w - a0)) eqn:Ed; qb; try (exfalso; lra); reflexivity.
+    destruct (Qle_bool dd (wnow w - a0)) eqn:Ed; qb; try (exfalso; lra); cbn;
+    try reflexivity; (split; [reflexivity|]); eexists; (split; [reflexivity|]); ring.
 Qed.
 
 Lemma wire_run_timer_explicit : forall (loss : option Q) (w : wire) (ct : Q) (dbg : bool) (u dd : Q),
